@@ -102,6 +102,15 @@ def run_nest(case, used, expr1, z, counters=None):
                 rec(level + 1, zcur, nxt)
 
     zroot = z.getRoot() if out else z.getPayloadRef()
+    if case["expr"].get("prod"):
+        # dense product reduction over the whole extent of every stored row
+        a_m = used["A"].getRoot()
+        for m, (p_ref, a_k) in zroot << a_m:
+            bodies[0] += 1
+            p_ref <<= 1
+            for k, a_val in a_k.iterShape():
+                p_ref *= a_val
+        return bodies
     if case["expr"].get("plus"):
         # element-wise addition in the union idiom
         a_m, b_m = used["A"].getRoot(), used["B"].getRoot()
